@@ -21,7 +21,7 @@ ASSUMPTIONS = ["Python list/bytes indexing and slicing is the reference", "strin
 SHARDED = True
 RAISE = "raise"
 
-KINDS = ["list", "astr", "ustr", "vector", "bytes", "range", "wstream", "mapped", "rrange", "drange"]
+KINDS = ["list", "astr", "ustr", "vector", "bytes", "range", "wstream", "mapped", "rrange", "drange", "wadv", "radv", "madv"]
 UCH = ["é", "a", "€", "b", "ñ"]
 
 
@@ -50,6 +50,13 @@ def seq(kind, n):
         return "stream([%s])" % ", ".join(map(str, vals)), [cI(v) for v in vals]
     if kind == "mapped":
         return "((1 to %d) lazy_map (*10))" % n, [cI(v) for v in vals]
+    # streams that were partly consumed before the access: what is left is the sequence
+    if kind == "wadv":
+        return "(stream([%s]) drop 2)" % ", ".join(map(str, [1, 2] + vals)), [cI(v) for v in vals]
+    if kind == "radv":
+        return "(((0 - 10) til %d by 10) drop 2)" % (10 * n + 10), [cI(v) for v in vals]
+    if kind == "madv":
+        return "(tail((0 to %d) lazy_map (*10)))" % n, [cI(v) for v in vals]
     raise KeyError(kind)
 
 
@@ -58,7 +65,7 @@ def is_str(kind):
 
 
 def is_stream(kind):
-    return kind in ("range", "wstream", "mapped", "rrange", "drange")
+    return kind in ("range", "wstream", "mapped", "rrange", "drange", "wadv", "radv", "madv")
 
 
 def str_piece(bs):
@@ -119,7 +126,7 @@ def in_word(v):
 
 
 def bounds(tier):
-    return {"kinds": KINDS, "max_len": 3 if tier == "tiny" else 5, "index_window": "[-len-3, len+3]",
+    return {"kinds": KINDS, "max_len": 3 if tier == "tiny" else 5 if tier == "quick" else 7, "index_window": "[-len-3, len+3]",
             "extreme_indices": [str(b) for b in BIGS], "non_integer_indices": NONINT}
 
 
@@ -133,7 +140,7 @@ def bigrep(i):
 
 
 def cases(tier, shard, nshards):
-    maxn = 3 if tier == "tiny" else 5
+    maxn = 3 if tier == "tiny" else 5 if tier == "quick" else 7
     cnt = 0
     for kind in KINDS:
         for n in range(0, maxn + 1):
